@@ -4,6 +4,10 @@ Streams (all seeded from VERIF_SEED):
   init   existing .thailint.yaml x preset -> `thailint init-config --non-interactive` twice (in-process click runner,
          a fraction through the real CLI in a scratch cwd with HOME redirected); PyYAML judges the files
   hist   histories of `config set/get/reset` on ./config.yaml (real CLI) or --config FILE (.yaml/.json)
+  loc    histories of `config set/get/reset` WITHOUT --config over the default-location chain (CONFIG_LOCATIONS of src/config.py):
+         ./config.yaml, ./config.json, ~/.config/<name>/config.yaml|json populated with absent / valid / invalid / unreadable /
+         non-mapping / empty files in any combination (in-process with the location list mapped into a scratch tree, a fraction
+         through the real CLI with cwd and HOME redirected); model: Model/CfgLoc.v
   conv   texts -> _convert_value_type           (unit level)
   xtr    mutated templates -> extract_linter_sections   (unit level)
   mfn    arbitrary texts -> merge_config_sections       (unit level, includes control characters / CRLF)
@@ -27,7 +31,7 @@ PROP = "C20"
 FLAGS = ["q_missing_by_raw_key", "q_append_to_flow_root", "q_insert_mid_entry", "q_cli_raw_key"]
 INIT_FLAGS = FLAGS[:3]
 HEADER = ("From TL Require Import Lib.Base Lib.GenTypes Model.CfgTypes Gen.CfgToolGen Model.CfgMerge Model.CfgCli "
-          "Model.CfgToolRun Actual.CfgToolActual.\nFrom Coq Require Import ZArith.\nOpen Scope Z_scope.\nOpen Scope nat_scope.\n")
+          "Model.CfgToolRun Model.CfgLoc Actual.CfgToolActual.\nFrom Coq Require Import ZArith.\nOpen Scope Z_scope.\nOpen Scope nat_scope.\n")
 BIT_NAMES = ["valid_yaml", "old_lines_preserved", "settings_in_effect", "only_missing_added", "all_missing_added",
              "added_sections_carry_template", "second_run_changes_nothing"]
 MARK1 = "# " + "=" * 76
@@ -54,6 +58,9 @@ def impl():
         from src.core import config_parser as cp
         from src import config as scfg
         _impl.update(yaml=yaml, runner=CliRunner, cli=cli, ccfg=ccfg, cm=cm, cp=cp, scfg=scfg)
+        import pwd
+        _impl["loc_orig"] = [Path(p) for p in scfg.CONFIG_LOCATIONS]
+        _impl["loc_bases"] = [(Path.cwd(), "cwd"), (home, "home"), (Path.home(), "home"), (Path(pwd.getpwuid(os.getuid()).pw_dir), "home")]
     return _impl
 
 
@@ -699,6 +706,281 @@ def _mix_ok():
     return _mix[0]
 
 
+# ------------------------------------------------------------------ histories over the default-location chain (no --config)
+def _gen_cmds(r):
+    cmds, keys_used = [], []
+    for _ in range(r.randint(3, 8)):
+        t = r.random()
+        if t < 0.5:
+            k = r.choice(DEFAULT_KEYS + EXTRA_KEYS + EXTRA_KEYS)
+            cmds.append(["set", k, gen_value(r, k)])
+            keys_used.append(k)
+        elif t < 0.93:
+            pool = keys_used * 3 + DEFAULT_KEYS + EXTRA_KEYS + [k.replace("-", "_") for k in keys_used]
+            cmds.append(["get", r.choice(pool)])
+        else:
+            cmds.append(["reset"])
+    if keys_used and cmds[-1][0] != "get":
+        cmds.append(["get", r.choice(keys_used)])
+    return cmds
+
+
+def gen_loc_file(r, j):
+    """what stands at one location: None (absent) or {kind: items|broken|nonmap|empty, items}"""
+    t = r.random()
+    if t < 0.42:
+        return None
+    if t < 0.72:
+        items = r.choice([
+            [("greeting", f"From{j}"), ("my-key", j)],
+            [("log_level", "DEBUG"), ("timeout", 5)],
+            [("greeting", f"Loc{j}"), ("max_retries", j), ("feature-x", "on"), ("my_key", 10 + j)],
+            [("app_name", "tool"), ("version", "2"), ("log_level", "ERROR"), ("output_format", "json"), ("greeting", "Hey"),
+             ("max_retries", 9), ("timeout", 1)],
+            [("my-key", 1), ("my_key", 2)],
+            [("timeout", 2.5), ("output_format", "yaml")],
+        ])
+        return {"kind": "items", "items": [list(x) for x in items]}
+    if t < 0.86:
+        items = r.choice([
+            [("log_level", "bogus"), ("greeting", "lost?")],
+            [("max_retries", -3), ("greeting", "neg")],
+            [("timeout", 0)],
+            [("app_name", ""), ("my-key", 7)],
+            [("output_format", "xml"), ("log-level", "DEBUG")],
+            [("log-level", "trace")],
+        ])
+        return {"kind": "items", "items": [list(x) for x in items]}
+    if t < 0.93:
+        return {"kind": "broken"}
+    if t < 0.97:
+        return {"kind": "nonmap"}
+    return {"kind": "empty"}
+
+
+def gen_loc_case(seed, i):
+    r = rng_for(seed, PROP, "loc", i)
+    ctl = [c for c, _ in _loc_paths(Path("/nonexistent"))]
+    files = [gen_loc_file(r, j) for j in range(len(ctl))]
+    return {"stream": "loc", "i": i, "via": "cli" if r.random() < 0.07 else "api",
+            "files": [f if c else None for f, c in zip(files, ctl)], "cmds": _gen_cmds(r)}
+
+
+def _loc_paths(d: Path):
+    """the entries of CONFIG_LOCATIONS (order of the source) mapped into the scratch tree: (controllable, path)"""
+    m = impl()
+    out = []
+    for p in m["loc_orig"]:
+        for base, kind in m["loc_bases"]:
+            try:
+                rel = p.relative_to(base)
+            except ValueError:
+                continue
+            out.append((True, (d / rel) if kind == "cwd" else (d / "home" / rel)))
+            break
+        else:
+            out.append((False, p))
+    return out
+
+
+def _write_loc_file(path: Path, spec):
+    if spec is None:
+        return
+    path.parent.mkdir(parents=True, exist_ok=True)
+    js = path.suffix == ".json"
+    if spec["kind"] == "items":
+        _dump_state(path, [tuple(x) for x in spec["items"]])
+    elif spec["kind"] == "broken":
+        path.write_text("{not json" if js else "a: [unclosed\nb: 1\n")
+    elif spec["kind"] == "nonmap":
+        path.write_text("[1, 2]" if js else "- a\n- b\n")
+    else:
+        path.write_text("{}" if js else "# nothing here\n")
+
+
+def _read_loc(path: Path):
+    """None (absent) / "broken" (no loader yields a mapping) / ordered [key, value] pairs (an empty YAML document is an empty mapping)"""
+    if not path.exists():
+        return None
+    try:
+        d = json.loads(path.read_text()) if path.suffix == ".json" else impl()["yaml"].safe_load(path.read_text())
+    except Exception:  # noqa: BLE001
+        return "broken"
+    if d is None and path.suffix != ".json":
+        d = {}
+    if not isinstance(d, dict):
+        return "broken"
+    return [[k, v] for k, v in d.items()]
+
+
+def run_loc(case):
+    m = impl()
+    with scratch_dir("tv-c20l-") as d:
+        (d / "home").mkdir()
+        paths = _loc_paths(d)
+        for spec, (ctl, p) in zip(case["files"], paths):
+            if ctl:
+                _write_loc_file(p, spec)
+        uncontrolled = [str(p) for ctl, p in paths if not ctl and p.exists()]
+        snap = lambda: [(_read_loc(p) if ctl else None) for ctl, p in paths]          # noqa: E731
+        raw = lambda: [(p.read_bytes() if p.exists() else None) for ctl, p in paths]  # noqa: E731
+        state0 = snap()
+        steps = []
+        saved = list(m["scfg"].CONFIG_LOCATIONS)
+        try:
+            if case["via"] != "cli":
+                m["scfg"].CONFIG_LOCATIONS[:] = [p for _, p in paths]
+            for c in case["cmds"]:
+                before = raw()
+                args = ["config", c[0]] + (["--yes"] if c[0] == "reset" else ["--", *c[1:]])
+                if case["via"] == "cli":
+                    rc, so, se = run_cli(args, cwd=d, home=d / "home")
+                else:
+                    rr = m["runner"](mix_stderr=False).invoke(m["cli"], args) if _mix_ok() else m["runner"]().invoke(m["cli"], args)
+                    rc, so, se = rr.exit_code, rr.stdout, ""
+                    if rr.exception is not None and not isinstance(rr.exception, SystemExit):
+                        se = "EXC " + repr(rr.exception)
+                after = raw()
+                steps.append({"rc": rc, "out": so, "err": se[-300:], "state": snap(), "bytes_same": [a == b for a, b in zip(before, after)]})
+        finally:
+            m["scfg"].CONFIG_LOCATIONS[:] = saved
+        return {"state0": state0, "steps": steps, "uncontrolled": uncontrolled, "where": [str(p.relative_to(d)) if ctl else str(p) for ctl, p in paths]}
+
+
+def clstate(sts):
+    """Coq term for the file states of all locations, or None when a value left the modelled domain"""
+    out = []
+    for st in sts:
+        if st is None:
+            out.append("LAbsent")
+        elif st == "broken":
+            out.append("LBroken")
+        else:
+            c = cstate(st)
+            if c is None:
+                return None
+            out.append("(LFile " + c[len("(Some "):])
+    return coq.coq_list(out)
+
+
+def coq_loc(case, res):
+    f0 = clstate(res["state0"])
+    if f0 is None or res["uncontrolled"]:
+        return None
+    cmds, obs = [], []
+    for c, s in zip(case["cmds"], res["steps"]):
+        cmds.append(f"CSet {cs(c[1])} {cs(c[2])}" if c[0] == "set" else (f"CGet {cs(c[1])}" if c[0] == "get" else "CReset"))
+        st = clstate(s["state"])
+        if st is None:
+            return None
+        out = s["out"][:-1] if s["out"].endswith("\n") else s["out"]
+        o = "None" if (c[0] == "reset" or s["rc"] != 0) else f"(Some {cs(out)})"
+        obs.append(f"(Build_lobs {s['rc'] % 256} {o} {st})")
+    return f"judge_loc cfgtool_actual {f0} {coq.coq_list(cmds)} {coq.coq_list(obs)}"
+
+
+def py_loc_oracle(case, res):
+    """the property on a history without --config, stated on the files at all known locations and independent of the search order
+    of the code: rejected set / get change no file anywhere; every file an accepted set changes is readable, valid as documented
+    after loading and holds the accepted value, and some location holds it; a later get prints it"""
+    m = impl()
+    fails = []
+    exp = {}
+    for n, (c, s) in enumerate(zip(case["cmds"], res["steps"])):
+        if s["err"].startswith("EXC"):
+            fails.append(f"step {n}: internal exception {s['err']}")
+        changed = [j for j, same in enumerate(s["bytes_same"]) if not same]
+        if c[0] == "set":
+            if s["rc"] != 0:
+                if changed:
+                    fails.append(f"step {n}: rejected `set {c[1]} {c[2]!r}` changed the file at {[res['where'][j] for j in changed]}")
+                continue
+            want = spec_convert(c[2])
+            holders = 0
+            for j, st in enumerate(s["state"]):
+                if not isinstance(st, list):
+                    if j in changed:
+                        fails.append(f"step {n}: accepted set left no readable mapping at {res['where'][j]} ({st})")
+                    continue
+                got = norm_cfg(dict((k, v) for k, v in st)).get(nk(c[1]), "<absent>")
+                holds = repr(got) == repr(want) and type(got) is type(want)
+                holders += holds
+                if j in changed:
+                    loaded = m["scfg"].merge_configs(m["scfg"].DEFAULT_CONFIG.copy(), norm_cfg(dict((k, v) for k, v in st)))
+                    bad = doc_invalid(loaded)
+                    if bad:
+                        fails.append(f"step {n}: file {res['where'][j]} written by `set {c[1]} {c[2]!r}` is not valid as documented: {bad}")
+                    if not holds:
+                        fails.append(f"step {n}: value of {c[1]} in {res['where'][j]} after save/load is {got!r}, accepted {want!r}")
+            if not holders:
+                fails.append(f"step {n}: accepted `set {c[1]} {c[2]!r}` is stored at no location")
+            exp[nk(c[1])] = str(want)
+        elif c[0] == "get":
+            if changed:
+                fails.append(f"step {n}: get changed the file at {[res['where'][j] for j in changed]}")
+            if nk(c[1]) in exp:
+                out = s["out"][:-1] if s["out"].endswith("\n") else s["out"]
+                if s["rc"] != 0 or out != exp[nk(c[1])]:
+                    fails.append(f"step {n}: `get {c[1]}` gives rc={s['rc']} out={out!r}, accepted value was {exp[nk(c[1])]!r}")
+        elif s["rc"] == 0:
+            exp = {}
+    return fails
+
+
+def decide_loc(chk, case, res, ver, cands_all):
+    fails = py_loc_oracle(case, res)
+    sets = [(c, s) for c, s in zip(case["cmds"], res["steps"]) if c[0] == "set"]
+    acc = sum(1 for _, s in sets if s["rc"] == 0)
+    rej = sum(1 for _, s in sets if s["rc"] != 0)
+    present = sum(1 for f in case["files"] if f is not None)
+    chk.count(["loc", case["files"], case["cmds"]], acc >= 1 and present >= 1)
+    chk.dist("stream:loc")
+    chk.dist("loc.via:" + case["via"])
+    chk.dist("loc.files_present", present)
+    for f in case["files"]:
+        chk.dist("loc.file:" + ("absent" if f is None else f["kind"]))
+    chk.dist("loc.sets_accepted", acc)
+    chk.dist("loc.sets_rejected", rej)
+    chk.sample({"stream": "loc", "locations": res["where"], "files": case["files"], "cmds": case["cmds"],
+                "observed": [[s["rc"], s["out"].strip()[:60]] for s in res["steps"]]}, 3)
+    info = {"case": case, "locations": res["where"],
+            "observed": [{"rc": s["rc"], "out": s["out"][:200], "state": s["state"], "bytes_same": s["bytes_same"]} for s in res["steps"]]}
+    if res["uncontrolled"]:
+        chk.notes.append(f"loc stream: a system-wide configuration file exists ({res['uncontrolled']}); default-location histories are judged by the Python oracle only")
+    if ver is not None and not bool(ver[3][0]):
+        ver = None
+    if ver is None:
+        chk.dist("loc.no_model_verdict")
+        nan_sets = [n for n, c in enumerate(case["cmds"]) if c[0] == "set" and nk(c[1]) == "timeout" and _is_nan(spec_convert(c[2]))]
+        rest = [f for f in fails if not any(f.startswith(f"step {n}:") and "not valid as documented" in f and "timeout nan" in f for n in nan_sets)]
+        if fails and not rest:
+            chk.known_finding("timeout_nan_accepted", {"mode": "default locations", "files": case["files"], "cmds": case["cmds"], "failures": fails[:3]})
+        elif fails:
+            chk.violation({"reason": "config set/get history over the default locations violates the property (no model verdict): " + "; ".join(rest[:3]), **info})
+        return cands_all
+    chk.traces_validated += len(case["cmds"])
+    spec_bits, ideal_ok, cand = [bool(b) for b in ver[0]], bool(ver[1][0]), [bool(b) for b in ver[2]]
+    cands_all = cand if cands_all is None else [a and b for a, b in zip(cands_all, cand)]
+    coq_ok = all(spec_bits) and len(spec_bits) == len(case["cmds"])
+    if coq_ok != (not fails):
+        chk.correspondence_broken({"level": "spec", "detail": "trace specification over the default locations: Coq and the Python oracle disagree",
+                                   "python_failures": fails, "coq_bits": spec_bits, **info})
+        return cands_all
+    if not fails:
+        if not any(cand):
+            chk.correspondence_broken({"level": "observable", "detail": "default-location history satisfies the specification but matches no candidate model "
+                                                                        "(Model/CfgLoc.v: search order, skipping of unreadable / invalid files, save location)", **info})
+        return cands_all
+    info["reason"] = "config set/get history without --config violates the property: " + "; ".join(fails[:3])
+    if cand[0] and ideal_ok and not cand[2] and "q_cli_raw_key" in chk.known["known"]:
+        chk.known_finding("q_cli_raw_key", {"mode": "default locations", "files": case["files"], "cmds": case["cmds"], "failures": fails[:3]})
+    else:
+        info["model_actual_matches_impl"] = cand[0]
+        info["model_ideal_meets_spec"] = ideal_ok
+        chk.violation(info)
+    return cands_all
+
+
 FLOAT_RE = re.compile(r"^(-?)(\d+)\.(\d+)$")
 
 
@@ -1001,6 +1283,8 @@ def _dispatch(case):
         return run_xtr(case)
     if s == "mfn":
         return run_mfn(case)
+    if s == "loc":
+        return run_loc(case)
     raise ValueError(s)
 
 
@@ -1030,7 +1314,10 @@ def run(tier: str, seed: int, replay: str | None = None) -> int:
         "(timeout, max_retries, log_level, output_format, app_name) every boundary text (bound-1, bound, bound+1 as int and float text, signed zeros, very large, "
         "non-numeric, empty, nan/inf) on a yaml and a json file; oracle: rejected => file byte-identical and get unchanged, accepted => get returns it and the "
         "loaded file is valid AS DOCUMENTED (written independently of src/config.py); non-trivial = at least one accepted and one rejected "
-        "or re-read set.  Unit streams: _convert_value_type, extract_linter_sections on mutated templates, merge_config_sections on arbitrary text. "
+        "or re-read set.  loc: histories of the same commands WITHOUT --config over the default-location chain - ./config.yaml, ./config.json, "
+        "~/.config/<name>/config.yaml and .json each absent / valid / failing validation / unreadable / not a mapping / empty, in any combination "
+        "(in-process with CONFIG_LOCATIONS mapped into a scratch tree in source order, a fraction through the real CLI with cwd and HOME redirected); "
+        "oracle stated on the files at all locations, independent of the search order; non-trivial = at least one accepted set with at least one file present.  Unit streams: _convert_value_type, extract_linter_sections on mutated templates, merge_config_sections on arbitrary text. "
         "distinct = distinct (input, commands)")
     chk.trusted_base += [
         "PyYAML is the judge of YAML validity and of the value of an entry; the model's line-structured subset (Model/CfgMerge.v: analyse/eff) is validated against it "
@@ -1039,6 +1326,8 @@ def run(tier: str, seed: int, replay: str | None = None) -> int:
         "validated by the unit-level stream on arbitrary text including control characters",
         "int()/float()/str() of Python and yaml.dump/safe_load, json.dump/load round trips are library oracles: conv_domain texts are checked against "
         "_convert_value_type, saved files are re-read with the real loaders on every step",
+        "default locations: the system-wide entry of CONFIG_LOCATIONS (/etc/...) cannot be populated in the sandbox and is taken as absent (checked on every case); "
+        "the in-process runs replace the entries of src.config.CONFIG_LOCATIONS by scratch paths of the same relative shape and order, the CLI runs do not",
         "click option parsing, file I/O; acceptance of the generated file by every linter command is validated through the real CLI only",
     ]
     chk.build(["theories/Props/C20.v"], ["CfgToolGen"], known_v=["theories/Props/C20Known.v"])
@@ -1056,7 +1345,9 @@ def run(tier: str, seed: int, replay: str | None = None) -> int:
     n_conv = (300 if quick else 3000) * scale
     n_xtr = (24 if quick else 240) * scale
     n_mfn = (120 if quick else 1200) * scale
-    n_init, n_hist, n_conv, n_xtr, n_mfn = (int(x) for x in (n_init, n_hist, n_conv, n_xtr, n_mfn))
+    n_loc = (120 if quick else 1500) * scale
+    n_init, n_hist, n_conv, n_xtr, n_mfn, n_loc = (int(x) for x in (n_init, n_hist, n_conv, n_xtr, n_mfn, n_loc))
+    procs = int(os.environ.get("C20_PROCS", "8"))
 
     with scratch_dir("tv-c20-home-") as home:
         os.environ["C20_HOME"] = str(home)
@@ -1071,7 +1362,8 @@ def run(tier: str, seed: int, replay: str | None = None) -> int:
             cases += [gen_hist_case(seed, i) for i in range(n_hist)]
             cases += [gen_xtr_case(seed, i) for i in range(n_xtr)]
             cases += [gen_mfn_case(seed, i) for i in range(n_mfn)]
-        results = pool_map(_dispatch, cases, procs=8)
+            cases += [gen_loc_case(seed, i) for i in range(n_loc)]
+        results = pool_map(_dispatch, cases, procs=procs)
         conv_texts = [] if replay else gen_conv_texts(seed, n_conv)
         conv_vals = [run_conv(t) for t in conv_texts]
         if replay and cases:
@@ -1084,7 +1376,7 @@ def run(tier: str, seed: int, replay: str | None = None) -> int:
                           [(p, "magic-numbers") for p in PRESETS if p != p0]
         else:
             preset_jobs = [(p, c) for p in PRESETS for c in [None] + linter_commands()]
-        preset_res = pool_map(run_preset_cmd, preset_jobs, procs=8)
+        preset_res = pool_map(run_preset_cmd, preset_jobs, procs=procs)
 
         # ---- Coq evaluation
         terms, owners = [], []
@@ -1103,6 +1395,11 @@ def run(tier: str, seed: int, replay: str | None = None) -> int:
             elif s == "mfn":
                 texts = coq.coq_list([clines(t) for t in case["texts"]])
                 terms.append(f"judge_mergefn cfgtool_actual {clines(case['text'])} {texts} {clines(res)}")
+            elif s == "loc":
+                t = coq_loc(case, res)
+                if t is None:
+                    continue
+                terms.append(t)
             owners.append(idx)
         conv_idx = []
         for j, (t, v) in enumerate(zip(conv_texts, conv_vals)):
@@ -1134,6 +1431,7 @@ def run(tier: str, seed: int, replay: str | None = None) -> int:
     # ---- decisions
     init_cands = None
     hist_cands = None
+    loc_cands = None
     for idx, (case, res) in enumerate(zip(cases, results)):
         s = case["stream"]
         ver = verdict.get(idx)
@@ -1141,6 +1439,8 @@ def run(tier: str, seed: int, replay: str | None = None) -> int:
             init_cands = decide_init(chk, case, res, ver, init_cands)
         elif s == "hist":
             hist_cands = decide_hist(chk, case, res, ver, hist_cands)
+        elif s == "loc":
+            loc_cands = decide_loc(chk, case, res, ver, loc_cands)
         elif s in ("xtr", "mfn"):
             chk.dist("stream:" + s)
             chk.count([s, case.get("lines") or [case["text"], case["texts"]]], True)
@@ -1175,6 +1475,7 @@ def run(tier: str, seed: int, replay: str | None = None) -> int:
             chk.violation({"reason": f"linter command `{pr['cmd']}` does not accept the file generated for preset {pr['preset']} (exit {pr['rc']})", "detail": pr})
     note_cands(chk, "init-config", init_cands, ["actual"] + [f"actual without {f}" for f in INIT_FLAGS] + ["ideal"])
     note_cands(chk, "config set/get", hist_cands, ["actual", "actual without q_cli_raw_key", "ideal"])
+    note_cands(chk, "config set/get over the default locations", loc_cands, ["actual", "actual without q_cli_raw_key", "ideal"])
     return chk.finish()
 
 
